@@ -3,6 +3,7 @@
 //! usage: c03 gen <quick|thorough> [n]  — generate programs; one line per case:
 //!            <id>\t<ctx sexp>\t<prog sexp>\t<result>\t<source hex>\t<stats>\t<real instruction stream>
 //!        c03 argbind <quick|thorough>  — the argument-binding box (c03_args.inc), same case lines
+//!        c03 shapes                    — the box of fast-path body shapes x auto-escape modes (c03_esc.inc)
 //!        c03 batch                     — stdin lines `<id>\t<ctx sexp>\t<prog sexp>` -> same case lines
 //!                                        (replay, shrinking, corpus)
 //!        c03 src <source> [ctx sexp]   — render a hand-written source, dumping the parsed AST as sexp
@@ -91,6 +92,7 @@ include!("c03_parse.inc");
 include!("c03_gen.inc");
 include!("c03_wrap.inc");
 include!("c03_args.inc");
+include!("c03_esc.inc");
 
 // ------------------------------------------------------------------------------------------ run
 fn cv_value(v: &CV) -> Value {
@@ -209,6 +211,7 @@ fn main() {
             let mut rng = Rng::new(seed_from_env());
             let mixed = rng.next() ^ seed_from_env().wrapping_mul(0xD6E8_FEB8_6659_FD93).rotate_left(23);
             let mut rng = Rng(mixed);
+            let mut rng_tw = Rng(mixed ^ 0x7717_e5ca_9e00_0001);
             for i in 0..n {
                 let (ctx, prog, stats, winfo) = gen_case(&mut rng);
                 let src = b_src(&prog);
@@ -218,18 +221,24 @@ fn main() {
                 let tail = gen_tail(&mut rng, kind, &winfo, &ctx);
                 let p: &[S] = if kind == "expr" { &[] } else { &winfo.wprog };
                 writeln!(out, "{}", run_wrap_case(&format!("g{}w", i), &ctx, kind, p, &tail, &format!("kinds=wrap-{}", kind))).unwrap();
+                // ... and under an auto-escape mode: absolute (`esc-ident`) or against its neutral twin
+                let ek = ESC_KINDS[i % ESC_KINDS.len()];
+                let twin = if ek == "esc-ident" { vec![] } else { neutral_twin(&mut rng_tw, &prog) };
+                writeln!(out, "{}", run_esc_case(&format!("g{}e", i), &ctx, ek, &prog, &twin, &format!("kinds=wrap-{}", ek))).unwrap();
             }
         }
         Some("argbind") => {
             let tier = args.get(2).map(|s| s.as_str()).unwrap_or("quick");
             gen_argbind(tier, &mut out);
         }
+        Some("shapes") => { gen_shapes(&mut out); }
         Some("batch") => {
             let mut line = String::new();
             while std::io::stdin().read_line(&mut line).unwrap() > 0 {
                 let f: Vec<&str> = line.trim_end_matches('\n').split('\t').collect();
                 if f.len() >= 3 && f[2].starts_with("(wrap ") {
                     match (parse_ctx(f[1]), parse_wrap(f[2])) {
+                        (Some(ctx), Some((kind, p, t))) if ESC_KINDS.contains(&kind.as_str()) => writeln!(out, "{}", run_esc_case(f[0], &ctx, &kind, &p, &t, "-")).unwrap(),
                         (Some(ctx), Some((kind, p, t))) => writeln!(out, "{}", run_wrap_case(f[0], &ctx, &kind, &p, &t, "-")).unwrap(),
                         _ => writeln!(out, "{}\t{}\t{}\tbad-case\t-\t-\t-", f[0], f[1], f[2]).unwrap(),
                     }
